@@ -1374,4 +1374,21 @@ example : ∃ (start : Block) (anc : List Block) (parse : Raw → Option Block),
       · cases hb
   · simp [lastOf, g]
 
+/-! Non-vacuity of the headline theorem's premise `Sync.done`: a concrete run that reaches it by
+the backward path. The node holds only `T0` (window 10); a forward target `T1` arrives (the strict
+forward rule does not fire: 15 − 6 = 9), then one peer answers with the real ancestry `O, X, G`;
+the client stops at the first ancestor older than the new minimum 5 (genesis, timestamp 0), all
+three blocks are saved, and the syncer is done with `T1` as last accepted block. -/
+def fxG : Block := { id := 0, parent := 999, ts := 0, height := 0, txs := [] }
+def fxIdx0 : Index := fun i => if i = 3 then some fxT0 else none
+def fxParse : Raw → Option Block := fun r =>
+  if r = [2] then some fxO else if r = [1] then some fxX else if r = [0] then some fxG else none
+
+example :
+    let s := runOps fxParse none 10 (Sync.start fxIdx0 10 VW.fresh 5 fxT0)
+      [.tgt fxT1, .ev (.blocks [[9], [2]]), .ev .err, .ev (.blocks [[2], [1], [0], [7]])]
+    s.done true = true ∧ s.fwdDone = false ∧ s.saved = [fxO, fxX, fxG] ∧
+      s.vw.lastAccepted = 4 ∧ s.vw.seen.contains 7 = true := by
+  refine ⟨by decide, by decide, by decide, by decide, by decide⟩
+
 end HyperModel.Props.C22
